@@ -9,7 +9,7 @@
    this property check.  Statements only. *)
 From Coq Require Import ZArith List Bool Arith Lia.
 From CrabV Require Import Base.ZInf Scalar.Itv Ir.Syntax Dom.ItvEnv Dom.ItvDomain Dom.History
-     Dom.HistorySound.
+     Dom.HistorySound Dom.Cow.
 Import ListNotations.
 
 Definition target (o : hop) : reg :=
@@ -41,5 +41,17 @@ Proof.
   - simpl. rewrite rget_rset by auto. rewrite Nat.eqb_refl. reflexivity.
 Qed.
 
+(* the copy-on-write wrapper (abstract_domain_ref): handles sharing reference-counted
+   cells, detach() before every mutating method, fresh cells from non-mutating ones.
+   For EVERY sequence of copies, mutations and value-building operations over any number
+   of handles and any underlying value type, what each handle observes is exactly what the
+   value-semantics specification gives. *)
+Theorem C16_cow_wrapper_is_value_semantics :
+  forall (A : Type) (dflt : A) (os : list (cop A)) (st : heap A),
+  wf A st -> ops_in_range A st os ->
+  observe A (fold_left (cstep A) os st) = fold_left (sstep A dflt) os (observe A st).
+Proof. intros A dflt os st. apply cow_is_value_semantics. Qed.
+
 Print Assumptions C16_frame.
 Print Assumptions C16_copy_then_mutate.
+Print Assumptions C16_cow_wrapper_is_value_semantics.
